@@ -109,3 +109,67 @@ func TestRWMutexWriterPreference(t *testing.T) {
 		t.Errorf("plain readers and a writer: %d deadlocks in %d executions", dead, execs)
 	}
 }
+
+// Cond: a waiter that re-checks its predicate never hangs; one that does not misses a signal sent before it waits.
+func TestCondModel(t *testing.T) {
+	mk := func(recheck bool) func() []ThreadSpec {
+		return func() []ThreadSpec {
+			var mu Mutex
+			c := NewCond(&mu)
+			ready := false
+			return []ThreadSpec{
+				{Name: "W", Body: func() {
+					mu.Lock()
+					if recheck {
+						for !ready {
+							c.Wait()
+						}
+					} else {
+						c.Wait()
+					}
+					mu.Unlock()
+				}},
+				{Name: "S", Body: func() { mu.Lock(); ready = true; c.Signal(); mu.Unlock() }},
+			}
+		}
+	}
+	execs, _, dead := raceCount(t, mk(true))
+	if dead != 0 || execs < 2 {
+		t.Errorf("waiter with predicate: %d deadlocks in %d executions", dead, execs)
+	}
+	execs, _, dead = raceCount(t, mk(false))
+	if dead == 0 || dead == execs {
+		t.Errorf("waiter without predicate: %d deadlocks in %d executions (want some, not all)", dead, execs)
+	}
+}
+
+// Map and Once: LoadOrStore hands every caller the one stored value; Once runs its function once.
+func TestMapAndOnceModel(t *testing.T) {
+	bad := 0
+	prog := func() ([]ThreadSpec, func(*Exec) []string) {
+		var m Map
+		var o Once
+		runs := 0
+		var got [3]any
+		th := func(i int) ThreadSpec {
+			return ThreadSpec{Name: "T", Body: func() {
+				o.Do(func() { runs++ })
+				if v, ok := m.Load("k"); ok {
+					got[i] = v
+					return
+				}
+				got[i], _ = m.LoadOrStore("k", i)
+			}}
+		}
+		return []ThreadSpec{th(0), th(1), th(2)}, func(ex *Exec) []string {
+			if runs != 1 || got[0] != got[1] || got[1] != got[2] || ex.Deadlock || len(ex.Races) > 0 {
+				bad++
+			}
+			return nil
+		}
+	}
+	st := Explore(prog, ExploreOpts{Bound: -1, Race: true})
+	if !st.Complete || bad != 0 || st.Executions < 6 {
+		t.Errorf("Map/Once model: %d bad of %d executions (complete=%v)", bad, st.Executions, st.Complete)
+	}
+}
